@@ -105,3 +105,47 @@ def print_known(prop, known_counts):
 
 def now():
     return time.monotonic()
+
+
+def report_violations(prop, viols, seed, tier, pred_factory, shrink_world=True):
+    """Group violations by signature, minimise one per group, write the replay
+    file and confirm it in a fresh interpreter.  Returns (confirmed, harness_problem)."""
+    from .minimize import minimise
+
+    groups = {}
+    for v in viols:
+        key = tuple(v["violation"]["sig"][:4])
+        groups.setdefault(key, []).append(v)
+    confirmed = 0
+    harness_problem = False
+    for gi, (key, vs) in enumerate(sorted(groups.items())[:4]):
+        v = min(vs, key=lambda x: (len(x["scenario"]["steps"]), len(json.dumps(x["scenario"]))))
+        scn = v["scenario"]
+        fails = pred_factory(v["violation"]["sig"])
+        try:
+            small, runs = minimise(scn, fails, fail_step=v["violation"]["step"],
+                                   max_runs=150 if tier == "quick" else 300,
+                                   max_s=60 if tier == "quick" else 150)
+        except Exception as e:  # noqa: BLE001
+            small, runs = scn, 0
+            print("note: minimiser failed (%r); keeping the original scenario" % (e,))
+        tag = "%s-%d" % (scn.get("seed", seed), gi)
+        payload = {"property": prop, "kind": "scenario", "scenario": small,
+                   "violation": v["violation"], "found_in_pass": v.get("pass"),
+                   "minimiser_runs": runs, "env": {"PYTHONHASHSEED": os.environ.get("PYTHONHASHSEED", "0")},
+                   "how_to_replay": "./check %s --replay <this file>" % prop}
+        path = write_replay(prop, tag, payload)
+        rc, out = replay_in_fresh_process(prop, path)
+        if rc != 1:
+            payload["scenario"] = scn
+            payload["minimiser_runs"] = 0
+            path = write_replay(prop, tag + "-orig", payload)
+            rc, out = replay_in_fresh_process(prop, path)
+        if rc == 1:
+            print("VIOLATION property=%s replay=%s" % (prop, path))
+            print("  %s" % "; ".join(str(x) for x in v["violation"]["paths"][:4])[:600])
+            confirmed += 1
+        else:
+            print("HARNESS-ERROR: failure for signature %r found in a worker does not reproduce from %s" % (key, path))
+            harness_problem = True
+    return confirmed, harness_problem
